@@ -288,11 +288,11 @@ def build_catalogue():
         out = p.apply(a['r'], 'rate')
         out2 = p.apply(a['r'] * 0.1, 'increment')
         return out, out2, p.data_frame
-    for rf in ('int', 'state'):
+    for rf in ('int', 'state', 'zero'):
         C.append(Entry('inertial_sensor.Parameters[%s]' % rf,
                        lambda f, rf=rf: dict(T=A(np.eye(3) + [[1e-3, 0, 2e-3], [0, -1e-3, 0], [0, 0, 0]], f), b=A([1e-3, 0, -2e-3], f),
                                              n=A([1e-4, 2e-4, 0], f), w=A([1e-5, 0, 0], f),
-                                             rng=12 if rf == 'int' else np.random.RandomState(12),
+                                             rng={'int': 12, 'zero': 0}.get(rf) if rf != 'state' else np.random.RandomState(12),
                                              r=imu_table()[['gyro_x', 'gyro_y', 'gyro_z']]),
                        par_program, AF, skip=('rng',)))
     C.append(Entry('inertial_sensor.Parameters.from_EstimationModel', lambda f: dict(m=est_model()),
@@ -344,11 +344,14 @@ def build_catalogue():
                    lambda a: sim.generate_sine_velocity_motion(0.1, 3.0, a['lla'], a['vm'], [1.0, 2.0, 0.0]), AF))
     for nm, fn in (('position', sim.generate_position_measurements), ('ned_velocity', sim.generate_ned_velocity_measurements),
                    ('body_velocity', sim.generate_body_velocity_measurements)):
-        for rf in ('int', 'state'):
+        for rf in ('int', 'state', 'zero'):
+            # 'zero': the integer seed 0 (falsy) is a seed like any other
             C.append(Entry('sim.generate_%s_measurements[%s]' % (nm, rf),
-                           lambda f, rf=rf: dict(t=traj_table(), rng=9 if rf == 'int' else np.random.RandomState(9)),
+                           lambda f, rf=rf: dict(t=traj_table(), rng={'int': 9, 'zero': 0}.get(rf) if rf != 'state'
+                                                 else np.random.RandomState(9)),
                            lambda a, fn=fn: fn(a['t'], 0.7, a['rng']), skip=('rng',)))
     C.append(Entry('sim.generate_pva_error', lambda f: dict(), lambda a: sim.generate_pva_error(5.0, 0.2, 0.1, 0.5, 4)))
+    C.append(Entry('sim.generate_pva_error[seed 0]', lambda f: dict(), lambda a: sim.generate_pva_error(5.0, 0.2, 0.1, 0.5, 0)))
     C.append(Entry('sim.perturb_pva', lambda f: dict(p=pva(), e=pd.Series([5.0, -3, 2, 0.2, -0.1, 0.1, 0.1, -0.2, 0.5], index=TERR)),
                    lambda a: sim.perturb_pva(a['p'], a['e'])))
 
@@ -370,13 +373,13 @@ def build_catalogue():
         return inc, tr, pos, vel
 
     def fb_program(a):
-        ms = [measurements.Position(a['pos'], 2.0), measurements.NedVelocity(a['vel'], 0.3)]
+        ms = a['ms']
         r = filters.run_feedback_filter(a['pva'], 5.0, 0.5, 0.5, 1.0, a['inc'], a['gm'], a['am'], measurements=ms,
                                         time_step=0.5, with_altitude=a['wa'])
         return dict(r)
 
     def ff_program(a):
-        ms = [measurements.Position(a['pos'], 2.0), measurements.NedVelocity(a['vel'], 0.3)]
+        ms = a['ms']
         r = filters.run_feedforward_filter(a['tr'], a['tr2'], 5.0, 0.5, 0.5, 1.0, a['gm'], a['am'], measurements=ms,
                                            increments=a['inc'], time_step=0.5, with_altitude=a['wa'])
         return dict(r)
@@ -391,6 +394,7 @@ def build_catalogue():
         def mk(f, wa=wa):
             inc, tr, pos, vel = filt_data()
             return dict(pva=tr.iloc[0].copy(), inc=inc, tr=tr, tr2=tr + 1e-6, pos=pos, vel=vel, wa=wa,
+                        ms=[measurements.Position(pos, 2.0), measurements.NedVelocity(vel, 0.3)],
                         gm=isn.EstimationModel(bias_sd=1e-4, noise=1e-5, scale_misal_sd=np.diag([1e-3, 0, 1e-3])),
                         am=isn.EstimationModel(bias_sd=0.02, noise=1e-3, bias_walk=1e-4))
         C.append(Entry('filters.run_feedback_filter[%s]' % ('3d' if wa else '2d'), mk, fb_program, skip=('bias', 'transform'),
